@@ -2,18 +2,19 @@
 # tools/runmutants.sh <scratch-worktree> [ids...]: applies each /verif/mutants/<id>.diff to the scratch worktree (never /repo), runs the
 # repository's suite and the expected detectors through VERIF_REPO, and prints a result table.
 set -u
+V="$(cd "$(dirname "$0")/.." && pwd)"   # the verification directory this script lives in (normally /verif)
 WT="$1"; shift
 IDS="$*"
-[ -z "$IDS" ] && IDS=$(python3 -c "import json;print(' '.join(m['id'] for m in json.load(open('/verif/mutants/index.json'))))")
+[ -z "$IDS" ] && IDS=$(python3 -c "import json;print(' '.join(m['id'] for m in json.load(open('$V/mutants/index.json'))))")
 export VERIF_REPO="$WT"
 for ID in $IDS; do
   git -C "$WT" checkout -- . 2>/dev/null
-  git -C "$WT" apply "/verif/mutants/$ID.diff" || { echo "$ID | patch does not apply"; continue; }
-  if /verif/bin/baseline >/dev/null 2>&1; then SUITE=survives; else SUITE=killed-by-suite; fi
-  read -r DET TIER <<< "$(python3 -c "import json;m=[x for x in json.load(open('/verif/mutants/index.json')) if x['id']=='$ID'][0];print(','.join(m['expected_detectors']),m['tier'])")"
+  git -C "$WT" apply "$V/mutants/$ID.diff" || { echo "$ID | patch does not apply"; continue; }
+  if $V/bin/baseline >/dev/null 2>&1; then SUITE=survives; else SUITE=killed-by-suite; fi
+  read -r DET TIER <<< "$(python3 -c "import json;m=[x for x in json.load(open('$V/mutants/index.json')) if x['id']=='$ID'][0];print(','.join(m['expected_detectors']),m['tier'])")"
   RES=""
   for P in ${DET//,/ }; do
-    OUT="$(/verif/bin/check "$P" "$TIER" 2>&1)"; RC=$?
+    OUT="$($V/bin/check "$P" "$TIER" 2>&1)"; RC=$?
     N=$(printf '%s\n' "$OUT" | grep -c '^VIOLATION')
     if [ $RC -eq 1 ] && [ "$N" -gt 0 ]; then RES="$RES $P:$TIER:CAUGHT($N)"; elif [ $RC -eq 0 ]; then RES="$RES $P:$TIER:missed"; else RES="$RES $P:$TIER:rc=$RC"; fi
   done
